@@ -38,4 +38,10 @@ func verifURLScheme(raw string) string             { panic("symbolic only") }
 func verifURLHost(raw string) string               { panic("symbolic only") }
 func verifURLNorm(raw string) string               { panic("symbolic only") }
 func verifProvenance(s string) (html.Token, bool)  { panic("symbolic only") }
+func verifWrite(s string)                          { panic("symbolic only") }
+func verifWriteFailed(s string)                    { panic("symbolic only") }
+func verifOr(a, b bool) bool                       { panic("symbolic only") }
+func verifAnd(a, b bool) bool                      { panic("symbolic only") }
+func verifImplies(a, b bool) bool                  { panic("symbolic only") }
+func verifCurrentToken() html.Token                { panic("symbolic only") }
 func verifSameObject(a, b interface{}) bool        { panic("symbolic only") }
